@@ -578,7 +578,8 @@ Fixpoint tight_from (s : bytes) (p : Z) : bool :=
     cut at the first occurrence of the delimiter.
     Otherwise: no newline; the field is cut at the first occurrence of the delimiter; when the
     delimiter contains ',' the bracket-counting loop is in charge: either brackets are
-    balanced and the delimiter does not occur early, or the text is one bracket group. *)
+    balanced and the delimiter does not occur early, or the text is one bracket group (that
+    does not itself begin with the delimiter). *)
 Definition text_ok (c : cfg) (ty : cty) (t : bytes) : bool :=
   if rfc4180 c then
     match ty with
@@ -588,7 +589,8 @@ Definition text_ok (c : cfg) (ty : cty) (t : bytes) : bool :=
   else
     negb (memb 10 t) &&
     (if memb 44 (delim c)
-     then (balanced_from t 0 && delim_fits (delim c) t) || tight_from t 0
+     then (balanced_from t 0 && delim_fits (delim c) t)
+          || (tight_from t 0 && negb (is_prefix (delim c) (t ++ delim c)))
      else delim_fits (delim c) t).
 
 Definition representable (c : cfg) (ty : cty) (v : cval) : bool :=
